@@ -436,9 +436,27 @@ def c10(res, tier, seed, replay):
                 runs.append({"name": f"graph-{m}-{nids}-{ctag}-{s}",
                              "args": ["-mode", "graph", "-config", f"vamana-{m}", "-nids", nids, "-maxbatch", mb, "-cache", cache,
                                       "-seed", seed * 100 + s, "-hist", hist, "-batches", batches, "-rank", 2]})
+        # saturated neighbourhoods (24 dimensions, few component values): the degree bound is actually reached
+        runs.append({"name": f"graph-dense-io-{s}", "timeout": 900,
+                     "args": ["-mode", "graph", "-insert-only", "-config", "vamana-dense", "-nids", 600 if tier == "quick" else 1200, "-maxbatch", 150,
+                              "-seed", seed * 100 + 70 + s, "-hist", 1 if tier == "quick" else 3, "-batches", 8, "-rank", 1]})
+        runs.append({"name": f"graph-dense-mix-{s}", "timeout": 900,
+                     "args": ["-mode", "graph", "-config", "vamana-dense", "-nids", 400 if tier == "quick" else 900, "-maxbatch", 150,
+                              "-seed", seed * 100 + 75 + s, "-hist", 1 if tier == "quick" else 3, "-batches", 30, "-rank", 1]})
     results = drive_and_validate(res, runs)
     for r in results[1:2]:
         sample_from_trace_nonempty(res, r["trace"], "Graph", cap=1)
+    atbound = 0
+    for r in results:
+        if "dense" in r["run"]["name"] and os.path.exists(r["trace"]):
+            with open(r["trace"]) as f:
+                for line in f:
+                    if '"ev":"Graph"' in line:
+                        e = json.loads(line)
+                        atbound = max(atbound, sum(1 for n in e["nodes"] if n[0] != 1 and len(n[1]) >= e["R"]))
+    res.coverage["most_nodes_at_the_degree_bound_in_one_graph"] = atbound
+    if atbound == 0 and not res.violations:
+        raise Inconclusive("no node reached the degree bound in the dense runs (vacuous bound check)")
 
     def mut(e):
         if e["ev"] == "Graph" and len(e["nodes"]) >= 3:
@@ -638,6 +656,18 @@ def c07(res, tier, seed, replay):
         runs.append({"name": f"fault-bigreject-{s}", "timeout": 1200, "tlc_timeout": 2400,
                      "args": ["-mode", "fault", "-config", "vamana-euclidean", "-nids", 400, "-maxbatch", 60, "-cache", "0", "-seed", seed * 100 + 70 + s,
                               "-hist", 1, "-batches", 10, "-max-faults", 4, "-kills", 0, "-rank", 1, "-sample", 10]})
+    # inserts of 1300..2600 points at once (the API takes 10000), every other one refused at its last point, with faults and
+    # kills early, in the middle and at the end: nothing of a batch that did not commit may stay
+    for s in range(1 if tier == "quick" else 4):
+        runs.append({"name": f"fault-biginsert-{s}", "timeout": 1800, "tlc_timeout": 2400,
+                     "args": ["-mode", "fault", "-insert-only", "-config", "none" if s % 2 == 0 else "scalars-ne", "-nids", 9000, "-maxbatch", 2600,
+                              "-cache", "-1", "-seed", seed * 100 + 90 + s, "-hist", 1, "-batches", 3 if tier == "quick" else 4,
+                              "-max-faults", 4 if tier == "quick" else 8, "-kills", 1 if tier == "quick" else 3, "-rank", 0, "-sample", 5]})
+    # points that are an id without any data bytes, every storage operation of every batch failed in turn
+    for s in range(2 if tier == "quick" else 6):
+        runs.append({"name": f"fault-nodata-{s}", "timeout": 1200, "tlc_timeout": 1800,
+                     "args": ["-mode", "fault", "-config", "none-nodata", "-cache", "-1", "-seed", seed * 100 + 95 + s, "-hist", 2 if tier == "quick" else 4,
+                              "-batches", 8, "-max-faults", 0, "-kills", 1, "-rank", 0, "-sample", 10]})
     results = drive_and_validate(res, runs)
     nf = nk = nfail = 0
     distinct = set()
